@@ -575,7 +575,7 @@ fn store_adaptor(rep: &mut Report, quick: bool) {
         alpha.hdr_lens = lens.clone();
         alpha.max_hdr_events = mh;
         let m = ChainModel { cfg: WorldCfg::regtest(theta), alpha, oracle: StoreView };
-        let e = explore(&m, &Limits::new(2, if quick { 50 } else { 3000 }));
+        let e = explore(&m, &Limits::new(2, if quick { 300 } else { 3000 }));
         rep.absorb(
             &format!("STORE-VIEW theta={} n={} announced chains {:?} x{}", theta, n, lens, mh),
             e,
